@@ -10,6 +10,10 @@ syntax), so that two ways of writing the same thing get one path table:
                                                                       comprehension: nothing the body can change)
   N5  for t in S: a, b = t; REST            ->  for a, b in S: REST  (t not used in REST nor after the loop)
   N6  while True: PRE; if c: break; REST    ->  PRE; while not c: REST; PRE          (loop rotation; no other jump)
+  N8  return / return None in a loop that ends the function  ->  break
+  N9  if c: continue ; REST   (loop body)   ->  if not c: REST
+  N10 while A: if c: break ; REST           ->  while A and not c: REST
+  N12 for n, d in G.nodes(data=True)        ->  for n in G.nodes(): d = G.nodes[n]     (networkx)
   N7  try: return B[0]..  except IndexError: H   ->   if not B: H  else: return B[0]..   (one statement, no call; the
                                                                       entries of B are taken to be non-empty themselves)
 
@@ -92,9 +96,44 @@ class _Norm(ast.NodeTransformer):
                 return ast.fix_missing_locations(ast.copy_location(t, node))
         return node
 
+    # N9: if c: continue ; REST   ->   if not c: REST        (in a loop body)
+    def _continue_guards(self, body):
+        out = []
+        i = 0
+        while i < len(body):
+            b = body[i]
+            if isinstance(b, ast.If) and not b.orelse and len(b.body) == 1 and isinstance(b.body[0], ast.Continue) and i + 1 < len(body):
+                rest = self._continue_guards(body[i + 1:])
+                new = ast.If(test=ast.UnaryOp(op=ast.Not(), operand=b.test), body=rest, orelse=[])
+                out.append(ast.fix_missing_locations(ast.copy_location(new, b)))
+                return out
+            out.append(b)
+            i += 1
+        return out
+
+    # N12: networkx   for n, d in G.nodes(data=True)   ->   for n in G.nodes(): d = G.nodes[n]
+    def _nx_nodes_data(self, node):
+        it = node.iter
+        if isinstance(node.target, ast.Tuple) and len(node.target.elts) == 2 and all(isinstance(e, ast.Name) for e in node.target.elts) \
+                and isinstance(it, ast.Call) and isinstance(it.func, ast.Attribute) and it.func.attr == 'nodes' and not it.args \
+                and len(it.keywords) == 1 and it.keywords[0].arg == 'data' and isinstance(it.keywords[0].value, ast.Constant) \
+                and it.keywords[0].value.value is True:
+            n, d = node.target.elts
+            g = it.func.value
+            first = ast.Assign(targets=[ast.Name(id=d.id, ctx=ast.Store())],
+                               value=ast.Subscript(value=ast.Attribute(value=_as_load(g), attr='nodes', ctx=ast.Load()),
+                                                   slice=ast.Name(id=n.id, ctx=ast.Load()), ctx=ast.Load()))
+            ast.fix_missing_locations(ast.copy_location(first, node))
+            node.target = ast.copy_location(ast.Name(id=n.id, ctx=ast.Store()), node.target)
+            node.iter = ast.fix_missing_locations(ast.copy_location(
+                ast.Call(func=ast.Attribute(value=_as_load(g), attr='nodes', ctx=ast.Load()), args=[], keywords=[]), it))
+            node.body = [first] + node.body
+
     # N2, N4, N5
     def visit_For(self, node):
         self.generic_visit(node)
+        node.body = self._continue_guards(node.body)
+        self._nx_nodes_data(node)
         # N4
         it = node.iter
         if isinstance(it, ast.Call) and isinstance(it.func, ast.Name) and it.func.id == 'list' and len(it.args) == 1 and not it.keywords:
@@ -128,6 +167,21 @@ class _Norm(ast.NodeTransformer):
     # N6: loop rotation
     def visit_While(self, node):
         self.generic_visit(node)
+        node.body = self._continue_guards(node.body)
+        # N10: while A: if c: break ; REST   ->   while A and not c: REST
+        if not node.orelse and node.body and isinstance(node.body[0], ast.If) and not node.body[0].orelse \
+                and len(node.body[0].body) == 1 and isinstance(node.body[0].body[0], ast.Break) and _cond_pure(node.body[0].test) \
+                and len(node.body) > 1:
+            # (further break / continue statements in REST keep their meaning: they leave or re-test the same loop)
+            c = node.body[0].test
+            notc = c.operand if isinstance(c, ast.UnaryOp) and isinstance(c.op, ast.Not) else ast.UnaryOp(op=ast.Not(), operand=c)
+            if isinstance(node.test, ast.Constant) and node.test.value is True:
+                node.test = notc
+            else:
+                node.test = ast.BoolOp(op=ast.And(), values=[node.test, notc])
+            node.body = node.body[1:]
+            ast.fix_missing_locations(node)
+            return self.visit_While_again(node)
         if node.orelse or not (isinstance(node.test, ast.Constant) and node.test.value is True):
             return node
         idx = None
@@ -161,6 +215,17 @@ class _Norm(ast.NodeTransformer):
             ast.copy_location(o, node)
             ast.fix_missing_locations(o)
         return out
+
+    def visit_While_again(self, node):
+        # a second leading `if c: break` (N10 applies until none is left); children are already normalised
+        while node.body and isinstance(node.body[0], ast.If) and not node.body[0].orelse and len(node.body[0].body) == 1 \
+                and isinstance(node.body[0].body[0], ast.Break) and _cond_pure(node.body[0].test) and len(node.body) > 1:
+            c = node.body[0].test
+            notc = c.operand if isinstance(c, ast.UnaryOp) and isinstance(c.op, ast.Not) else ast.UnaryOp(op=ast.Not(), operand=c)
+            node.test = ast.BoolOp(op=ast.And(), values=[node.test, notc])
+            node.body = node.body[1:]
+            ast.fix_missing_locations(node)
+        return node
 
     # N7: try: <one statement reading B[0] / B[-1]> except IndexError: H   ->   if not B: H else: <statement>
     def visit_Try(self, node):
@@ -206,9 +271,22 @@ class _Norm(ast.NodeTransformer):
     # N3
     def visit_If(self, node):
         self.generic_visit(node)
+        test0 = node.test
+        if isinstance(test0, ast.UnaryOp) and isinstance(test0.op, ast.Not) and isinstance(test0.operand, ast.Compare) \
+                and len(test0.operand.ops) == 1 and isinstance(test0.operand.ops[0], (ast.Gt, ast.Lt)):
+            # not (x > y)  is  x <= y   (over ordered values; NaN operands are the business of the NaN rule)
+            inv = {ast.Gt: ast.LtE, ast.Lt: ast.GtE}[type(test0.operand.ops[0])]
+            test0 = ast.Compare(left=test0.operand.left, ops=[inv()], comparators=test0.operand.comparators)
+        if isinstance(test0, ast.Compare) and len(test0.ops) == 1 and isinstance(test0.ops[0], (ast.LtE, ast.GtE)):
+            # if a <= b: a = b  stores b also on a tie, where it equals a: same value as max(a, b)
+            strict = {ast.LtE: ast.Lt, ast.GtE: ast.Gt}[type(test0.ops[0])]
+            test0 = ast.Compare(left=test0.left, ops=[strict()], comparators=test0.comparators)
         if not node.orelse and len(node.body) == 1 and isinstance(node.body[0], ast.Assign) and len(node.body[0].targets) == 1 \
-                and isinstance(node.test, ast.Compare) and len(node.test.ops) == 1 \
-                and isinstance(node.test.ops[0], (ast.Gt, ast.Lt)):
+                and isinstance(test0, ast.Compare) and len(test0.ops) == 1 \
+                and isinstance(test0.ops[0], (ast.Gt, ast.Lt)):
+            orig = node
+            node = copy.copy(node)
+            node.test = test0
             asg = node.body[0]
             a = asg.targets[0]
             if isinstance(a, (ast.Name, ast.Attribute, ast.Subscript)):
@@ -224,6 +302,7 @@ class _Norm(ast.NodeTransformer):
                     call = ast.Call(func=ast.Name(id=fn, ctx=ast.Load()), args=[_as_load(a), copy.deepcopy(b)], keywords=[])
                     new = ast.Assign(targets=[a], value=call)
                     return ast.fix_missing_locations(ast.copy_location(new, node))
+            return orig
         return node
 
 
@@ -264,6 +343,32 @@ def _inline_guard_temps(fn):
                 i += 1
 
 
+def _terminal_loop_returns(fn):
+    """N8   a `return` / `return None` inside a loop that is the last statement of the function (no else clause, not
+    inside a nested loop or a try with finally) leaves the loop and then falls off the end: it is a `break`"""
+    if not fn.body:
+        return
+    last = fn.body[-1]
+    if not isinstance(last, (ast.For, ast.While)) or last.orelse:
+        return
+
+    def rewrite(stmts):
+        for i, st_ in enumerate(stmts):
+            if isinstance(st_, ast.Return) and (st_.value is None or (isinstance(st_.value, ast.Constant) and st_.value.value is None)):
+                stmts[i] = ast.copy_location(ast.Break(), st_)
+            elif isinstance(st_, ast.If):
+                rewrite(st_.body)
+                rewrite(st_.orelse)
+            elif isinstance(st_, ast.With):
+                rewrite(st_.body)
+            elif isinstance(st_, ast.Try) and not st_.finalbody:
+                rewrite(st_.body)
+                rewrite(st_.orelse)
+                for h in st_.handlers:
+                    rewrite(h.body)
+    rewrite(last.body)
+
+
 _CACHE = {}
 
 
@@ -272,6 +377,7 @@ def normalized(fn: ast.FunctionDef) -> ast.FunctionDef:
     if k not in _CACHE:
         fn2 = copy.deepcopy(fn)
         _inline_guard_temps(fn2)
+        _terminal_loop_returns(fn2)
         _Norm(fn2).visit(fn2)
         _CACHE[k] = (fn, fn2)          # keep fn alive: ids are reused otherwise
     return _CACHE[k][1]
